@@ -212,3 +212,15 @@ impl BudgetEnforcer {
         ||| (self.inv() && within(self.abs(), self.budget, self.per_doc()) && self.room())
     }
 }
+
+// ---- constructor helpers (assumed: std / derive behaviour) ----
+/// `#[derive(Default)]` on BudgetReport: every counter zero, no breach
+#[verifier::external_body]
+fn budget_report_default() -> (r: BudgetReport)
+    ensures r == (BudgetReport { breached: None, events: 0, aliases: 0, anchors: 0, documents: 0, nodes: 0, max_depth: 0, total_scalar_bytes: 0, merge_keys: 0 }),
+{ unimplemented!() }
+/// `HashSet::with_capacity(n)`: an empty set
+#[verifier::external_body]
+fn anchor_set_with_capacity(n: usize) -> (r: HashSet<usize>)
+    ensures r@ == Set::<usize>::empty(),
+{ unimplemented!() }
